@@ -11,10 +11,10 @@ from engine.th import TH
 from spec.seq import N
 
 PROPERTY = "C22"
+HISTORY_LEMMAS = ['memory_history']  # lemmas/History.lean: one-cycle contracts => history-level statement (Lean 4)
 LEVEL = "proof"
 ASSUMPTIONS = [
     "caller obligation: no two write ports address the same row in one cycle; addresses below depth",
-    "paper lemma (not machine-checked): the per-step memory contract implies 'returns the latest completed write' by induction on the history",
     "(read ports, write ports, granularity, depth) swept as listed; unbounded in inputs and history length",
 ]
 
